@@ -27,3 +27,73 @@ Example C06_nonvacuous :
   let s := run (init_st 1 [(1, KWriter [0%nat] [0%nat] true [] [])]) (repeat 0%nat 9) in
   s_closed s = [] /\ map tv_ids (s_root s) = [[1]] /\ s_closed (step s 0%nat) = [0].
 Proof. repeat split; reflexivity. Qed.
+
+(* ==== all schedules (DB/Channels.v, DB/Watch.v, DB/Reach.v) ========================================
+   `reach ntab actors sched = run (init_st ntab actors) sched` for ANY schedule of ANY well-formed system. *)
+From SV Require Import DB.Invariants DB.Visibility DB.Channels DB.Watch DB.Reach.
+Open Scope nat_scope.
+
+(* PUBLISHED CHANNELS ARE OPEN: no closed channel is the watch channel, or the pending-initialization
+   channel, of an entry of the current committed root (a fresh reader never gets a closed channel) *)
+Theorem C06_published_open : forall ntab actors sched t v w, wf_system ntab actors ->
+  let s := reach ntab actors sched in
+  nth_error (s_root s) t = Some v -> In w (s_closed s) ->
+  tv_watch v <> w /\ forall p, tv_init v <> Some (w, p).
+Proof. exact published_open_reachable. Qed.
+Print Assumptions C06_published_open.
+
+(* the channels handed out by the committed root are pairwise distinct (chans v = watch + init watch) *)
+Theorem C06_published_distinct : forall ntab actors sched t1 t2 v1 v2 w, wf_system ntab actors ->
+  let s := reach ntab actors sched in
+  nth_error (s_root s) t1 = Some v1 -> nth_error (s_root s) t2 = Some v2 ->
+  In w (chans v1) -> In w (chans v2) -> t1 = t2.
+Proof. exact published_distinct_reachable. Qed.
+Print Assumptions C06_published_distinct.
+
+(* CLOSE AFTER STORE: a step closes channels only if its actor is a committing writer that has already
+   executed its root store (notify step: a_notify; init-close step: a_initclose); the step does not
+   change the root, and none of the closed channels is handed out by the committed root any more *)
+Theorem C06_close_after_store : forall ntab actors sched i, wf_system ntab actors ->
+  let s := reach ntab actors sched in
+  s_closed (step s i) = s_closed s \/
+  exists a cl, nth_error (s_actors s) i = Some a /\ committed a = true /\
+    s_closed (step s i) = cl ++ s_closed s /\ s_root (step s i) = s_root s /\
+    ((a_pc a = PRootUnlocked /\ cl = a_notify a) \/ (a_pc a = PTabsUnlocked /\ cl = a_initclose a)) /\
+    forall w, In w cl -> ~ rch (s_root s) w.
+Proof. exact close_after_store_reachable. Qed.
+Print Assumptions C06_close_after_store.
+
+(* WAKE-UP SEES A NEWER VERSION: if the watch channel that the committed root handed out for table t after
+   schedule s1 is closed after s1 ++ s2, then the committed entry of t after s1 ++ s2 contains every id the
+   earlier one did and the id of at least one further committed transaction *)
+Theorem C06_wake_sees_newer : forall ntab actors s1 s2 t v, wf_system ntab actors ->
+  nth_error (s_root (reach ntab actors s1)) t = Some v ->
+  In (tv_watch v) (s_closed (reach ntab actors (s1 ++ s2))) ->
+  exists v', nth_error (s_root (reach ntab actors (s1 ++ s2))) t = Some v' /\ incl (tv_ids v) (tv_ids v') /\
+             exists x, In x (tv_ids v') /\ ~ In x (tv_ids v).
+Proof. exact wake_sees_newer_reachable. Qed.
+Print Assumptions C06_wake_sees_newer.
+
+(* NO SPURIOUS-ABORT WAKE-UP: no step of an aborting writer (or of a registrar) closes a channel or, for a
+   writer, changes the root; its id is never visible *)
+Theorem C06_abort_closes_nothing : forall ntab actors sched i a, wf_system ntab actors ->
+  let s := reach ntab actors sched in
+  nth_error (s_actors s) i = Some a -> commits a = false ->
+  s_closed (step s i) = s_closed s /\
+  (a_kind a <> KRegistrar -> s_root (step s i) = s_root s) /\
+  (forall t v, nth_error (s_root s) t = Some v -> ~ In (a_id a) (tv_ids v)).
+Proof. exact abort_no_trace_reachable. Qed.
+Print Assumptions C06_abort_closes_nothing.
+
+Example C06_nonvacuous_wake :
+  let acts := [(1%N, KWriter [0] [0] true [] []); (2%N, KWriter [0; 1] [1] true [] [])] in
+  wf_system 2 acts /\
+  map tv_watch (s_root (reach 2 acts [])) = [0%N; 1%N] /\
+  In 0%N (s_closed (reach 2 acts (repeat 0 10))) /\
+  map tv_ids (s_root (reach 2 acts (repeat 0 10))) = [[1%N]; []].
+Proof.
+  split; [split|].
+  - intros ik [<-|[<-|[]]]; cbn; repeat split; try (intros x Hx; cbn in Hx; intuition (subst; cbn; auto)).
+  - cbn. repeat constructor; cbn; intuition discriminate.
+  - vm_compute. repeat split; auto.
+Qed.
